@@ -11,6 +11,8 @@ import ASV.Proofs.RegionsReload
 import ASV.Proofs.RegionsRing
 import ASV.Proofs.RegionsRingShort
 import ASV.Proofs.RegionsGiven
+import ASV.Proofs.RegionsRingOne
+import ASV.Proofs.RegionsRingNear
 namespace ASV.C06
 open ASV ASV.Regions ASV.Components
 
@@ -235,6 +237,74 @@ theorem ring_region_is_shortest_cover (s s' : State) (hL : 0 < s.len) (hi : Inv 
     RegionsShortest s.len s' :=
   createRegions_shortest s s' hL hi hreg hring h
 
+/-- **Circular record with origin-spanning areas — a region lists only one component** (`_partial`).
+    Hypothesis `ArcUnions`: the union of every family of areas grown by joining overlapping families is a
+    well-formed span of the ring shorter than half the record (the set-of-bases reading of "every component is
+    shorter than half the record"; it is not derived here from the executable `halfRecordComponent = false`).
+    Conditional on `create_regions` returning (success on such rings is still open).  Then any two areas a region
+    lists are linked by a chain of overlapping areas: the sweep's running location is always exactly the union of
+    the section's members (`connect_ring_exact`, from `connect_ring_closed` / `connR_covers` / `connR_shortest` of
+    C04), an area joins a section only if it shares a base with that union, and the first/last merge joins two
+    sections only if their unions share a base. -/
+theorem ring_region_lists_one_component_partial (s s' : State) (hcirc : s.circular = true) (hL : 0 < s.len)
+    (hi : Inv s) (hreg : s.regions = []) (hring : ∀ f ∈ s.cands ++ s.subs, RingArea s.len f.loc)
+    (harc : ArcUnions s.len (s.cands ++ s.subs)) (h : createRegions s = .ok s') :
+    ∀ r ∈ s'.regions, ∀ a ∈ s.cands ++ s.subs, ∀ b ∈ s.cands ++ s.subs,
+      a.id ∈ memberIds r → b.id ∈ memberIds r → Linked (areasOf s) (toArea a) (toArea b) :=
+  ring_region_one_component s s' hcirc hL hi hreg hring harc h
+
+/-- … hence, with `ring_components_never_split`: under the same hypotheses two areas of the record are listed by
+    the same region **iff** a chain of overlapping areas links them — the regions' member sets are exactly the
+    connected components, around the origin too. -/
+theorem ring_same_region_iff_linked_partial (s s' : State) (hcirc : s.circular = true) (hL : 0 < s.len)
+    (hi : Inv s) (hreg : s.regions = []) (hring : ∀ f ∈ s.cands ++ s.subs, RingArea s.len f.loc)
+    (harc : ArcUnions s.len (s.cands ++ s.subs)) (h : createRegions s = .ok s')
+    (a b : Feat) (ha : a ∈ s.cands ++ s.subs) (hb : b ∈ s.cands ++ s.subs)
+    (r : Feat) (hr : r ∈ s'.regions) (hma : a.id ∈ memberIds r) :
+    b.id ∈ memberIds r ↔ Linked (areasOf s) (toArea a) (toArea b) :=
+  ⟨fun hmb => ring_region_one_component s s' hcirc hL hi hreg hring harc h r hr a ha b hb hma hmb,
+   fun hl => ring_components_not_split s s' hL hi hreg hring h a b ha hl r hr hma⟩
+
+/-- **Around the origin, no extra hypothesis on unions**: on a circular record of length `L` whose candidate
+    clusters and subregions all lie within `W` bases of the origin, `4 W < L` — single spans ending before `W`,
+    single spans starting after `L - W`, and origin-spanning spans `[x, L) + [0, y)` with `L - W ≤ x`, `y ≤ W`, any
+    number of them, overlapping in any way — whenever `create_regions` returns, two areas are listed by the same
+    region **iff** a chain of overlapping areas links them (`ArcUnions` is proved for such layouts:
+    `arcUnions_near_origin`, unions of joined families are intervals in coordinates unrolled at the origin).
+    This widens `regions_are_components_no_origin_span` to layouts with any number of origin-spanning areas, up
+    to success of the call. -/
+theorem ring_regions_are_components_near_origin (s s' : State) (W : Int) (hcirc : s.circular = true)
+    (hW : 0 < W) (hWL : 4 * W < s.len) (hi : Inv s) (hreg : s.regions = [])
+    (hnear : ∀ f ∈ s.cands ++ s.subs, NearOrigin W s.len f.loc) (h : createRegions s = .ok s')
+    (a b : Feat) (ha : a ∈ s.cands ++ s.subs) (hb : b ∈ s.cands ++ s.subs)
+    (r : Feat) (hr : r ∈ s'.regions) (hma : a.id ∈ memberIds r) :
+    b.id ∈ memberIds r ↔ Linked (areasOf s) (toArea a) (toArea b) :=
+  ring_same_region_iff_linked_partial s s' hcirc (by omega) hi hreg
+    (fun f hf => (hnear f hf).ringArea hW hWL) (arcUnions_near_origin hW hWL hnear) h a b ha hb r hr hma
+
+/-- non-vacuity: ring of 1000, `W = 100`: subregions join{[950,1000),[0,30)}, [20,60), [900,960), [70,90) and a
+    second origin-spanning one join{[990,1000),[0,10)}: all near the origin; `create_regions` returns two regions,
+    join{[900,1000),[0,60)} holding four of them and [70,90) -/
+def nearDemo : State :=
+  { len := 1000, circular := true,
+    subs := [⟨0, .sub, areaTwo 950 30 1000 .fwd, [], [], []⟩, ⟨4, .sub, areaTwo 990 10 1000 .fwd, [], [], []⟩,
+             ⟨1, .sub, .simple ⟨20, 60, .fwd⟩, [], [], []⟩, ⟨3, .sub, .simple ⟨70, 90, .fwd⟩, [], [], []⟩,
+             ⟨2, .sub, .simple ⟨900, 960, .fwd⟩, [], [], []⟩], nextId := 5 }
+
+example : ∀ f ∈ nearDemo.cands ++ nearDemo.subs, NearOrigin 100 nearDemo.len f.loc := by
+  intro f hf
+  simp only [nearDemo, List.nil_append, List.mem_cons, List.not_mem_nil, or_false] at hf
+  rcases hf with rfl | rfl | rfl | rfl | rfl
+  · exact Or.inr (Or.inr ⟨950, 30, rfl, by decide, by decide, by decide, by decide⟩)
+  · exact Or.inr (Or.inr ⟨990, 10, rfl, by decide, by decide, by decide, by decide⟩)
+  · exact Or.inl ⟨_, rfl, by decide, by decide, by decide⟩
+  · exact Or.inl ⟨_, rfl, by decide, by decide, by decide⟩
+  · exact Or.inr (Or.inl ⟨_, rfl, by decide, by decide, by decide⟩)
+
+example : (createRegions nearDemo).toOption.map (fun s => s.regions.map view) =
+    some [(.compound [⟨900, 1000, .fwd⟩, ⟨0, 60, .fwd⟩], [], [0, 4, 1, 2]), (.simple ⟨70, 90, .fwd⟩, [], [3])] := by
+  decide +kernel
+
 /-! ### `create_regions(candidate_clusters=…, subregions=…)`: regions are built from exactly the given areas -/
 
 /-- On a record without regions, linear or circular, whatever the locations: after
@@ -278,9 +348,11 @@ example :
   for records **with** origin-spanning areas: proved are the case without origin-spanning areas
   (`regions_are_components_no_origin_span`, full statement incl. success) and, with them, the direction
   "components are never split" (`ring_components_never_split`) and "a region is the shortest covering arc of
-  what it lists" (`ring_region_is_shortest_cover`); open are success of `create_regions` and "a region lists only
-  one component when every component is shorter than half the record" — this needs the sweep in unrolled
-  coordinates (the running location stays the exact union) on top of `connect_ring_shortest` (C04) and is
+  what it lists" (`ring_region_is_shortest_cover`) and "a region lists only one component"
+  (`ring_region_lists_one_component_partial`, hypothesis `ArcUnions`); open are success of `create_regions`
+  (sections of different components must be shown disjoint: the separation half of the sweep in unrolled
+  coordinates, plus `collectionLt` on origin-spanning locations) and deriving `ArcUnions` from
+  `halfRecordComponent = false`; the component statement is
   **false** without the two exclusions (witnesses below, `KF-C06-half-record-component`,
   `KF-C06-full-record-order`).  What holds on a ring without any hypothesis is stated above:
   `create_regions_covers_each_area_once`, `regions_never_overlap`, `invariant_all_histories`. -/
